@@ -8,13 +8,15 @@
     file bytes, mtime quantised (zip: even seconds; tar: whole seconds);
   * `readZip`: `ReadZipFS._directory` — a `MemoryFS` built with `makedirs`/`create` per
     member name, literally a fold of `Ref.step` that stops at the first exception (the
-    half-built directory stays cached) — plus `_path_to_zip_name` and the way
+    half-built directory stays cached) and remembers `normalised path ↦ stored name` for every
+    member (`_zip_names`) — plus `_path_to_zip_name` and the way
     `getinfo/listdir/openbin/readbytes` resolve a path to a member (`NameToInfo`: the last
     member of a name wins; a missing name is a raw `KeyError` = `Err.Leak`);
   * `readTar`: `ReadTarFS._directory_entries` (strip `/`, `normpath`, drop names that raise
     `IllegalBackReference` or normalise to `""`, `OrderedDict`: first position, last value)
     and `isdir/isfile/getinfo/listdir/openbin` by `isbase/frombase/parts` over the keys
-    (implicit parent directories).
+    (implicit parent directories; `Info.name` is the basename of the path asked for;
+    the root is a directory even in an archive without members).
 
   EXTERNAL (not modelled, hypothesis of every theorem that composes writer and reader): the
   container bytes — `zipfile`/`tarfile` return exactly the `(name, kind, bytes, time)` list
@@ -103,6 +105,9 @@ structure ZipFS where
   err : Option Err
   /-- `self._zip` -/
   members : List Member
+  /-- `self._zip_names`: normalised path (directories with a trailing `/`) ↦ the name the member is
+      stored under; most recent assignment first, so the first match is the dict's value -/
+  names : List (Str × Str)
   deriving Repr
 
 def outErr : Ref.Out → Option Err
@@ -122,17 +127,33 @@ def dirStep (s : Ref.State) (name : Str) : Ref.State × Option Err :=
       let r2 := Ref.step r1.1 (.create name false)
       (r2.1, outErr r2.2)
 
-/-- the loop: stops at the first exception -/
-def buildDir : Ref.State → List Str → Ref.State × Option Err
-  | s, [] => (s, none)
-  | s, n :: ns =>
+/-- a Python dict as an association list, newest assignment first -/
+def assocGet (k : Str) : List (Str × Str) → Option Str
+  | [] => none
+  | (k', v) :: r => if k' = k then some v else assocGet k r
+
+/-- the key under which the loop remembers the stored name of a member:
+`forcedir(relpath(normpath(name)))` for a directory name, `relpath(normpath(name))` otherwise -/
+def zipKey (name : Str) : Res Str :=
+  match normpath name with
+  | .err e => .err e
+  | .ok n => .ok (if endsWithSlash name then forcedir (relpath n) else relpath n)
+
+/-- the loop: `makedirs`/`create`, then `self._zip_names[_name] = zip_name`; stops at the first
+exception -/
+def buildDir : Ref.State → List (Str × Str) → List Str → Ref.State × List (Str × Str) × Option Err
+  | s, nm, [] => (s, nm, none)
+  | s, nm, n :: ns =>
     match dirStep s n with
-    | (s', some e) => (s', some e)
-    | (s', none) => buildDir s' ns
+    | (s', some e) => (s', nm, some e)
+    | (s', none) =>
+      match zipKey n with
+      | .err e => (s', nm, some e)
+      | .ok k => buildDir s' ((k, n) :: nm) ns
 
 def readZip (ms : List Member) : ZipFS :=
-  let r := buildDir Ref.State.empty (ms.map (·.name))
-  { dir := r.1.root, err := r.2, members := ms }
+  let r := buildDir Ref.State.empty [] (ms.map (·.name))
+  { dir := r.1.root, err := r.2.2, members := ms, names := r.2.1 }
 
 /-- `ZipFile.NameToInfo[name]`: the last member written under that name -/
 def lookupLast (ms : List Member) (name : Str) : Option Member :=
@@ -183,6 +204,9 @@ def listdir (z : ZipFS) (p : Str) : Res (List Name) :=
   | .ok _ => .err .Leak
   | .err e => .err e
 
+/-- `self._zip_names.get(path)`, falling back to the path itself -/
+def stored (z : ZipFS) (path : Str) : Str := (assocGet path z.names).getD path
+
 /-- `_path_to_zip_name` -/
 def zipNameOf (z : ZipFS) (p : Str) : Res Str :=
   match normpath p with
@@ -190,8 +214,8 @@ def zipNameOf (z : ZipFS) (p : Str) : Res Str :=
   | .ok n =>
     let r := relpath n
     match z.dq (.isdir r) with
-    | .ok (.bool true) => .ok (forcedir r)
-    | .ok _ => .ok r
+    | .ok (.bool true) => .ok (z.stored (forcedir r))
+    | .ok _ => .ok (z.stored r)
     | .err e => .err e
 
 /-- the member a zip name resolves to; a missing name is `KeyError` -/
@@ -309,9 +333,10 @@ def isdir (z : TarFS) (p : Str) : Res Bool :=
   match rel p with
   | .err e => .err e
   | .ok r =>
-    match odGet r z.entries with
-    | some m => .ok m.isDir
-    | none => .ok (z.entries.any fun e => isbase r e.1)
+    if r == [] then .ok true            -- the root is a directory even without members
+    else match odGet r z.entries with
+      | some m => .ok m.isDir
+      | none => .ok (z.entries.any fun e => isbase r e.1)
 
 def isfile (z : TarFS) (p : Str) : Res Bool :=
   match rel p with
@@ -328,7 +353,7 @@ def details (z : TarFS) (p : Str) : Res Details :=
   | .ok r =>
     if r == [] then .ok ⟨[], true, none, none⟩
     else match odGet r z.entries with
-      | some m => .ok ⟨basename m.name, m.isDir, some m.data.length, some m.mtime⟩
+      | some m => .ok ⟨basename r, m.isDir, some m.data.length, some m.mtime⟩
       | none =>
         match z.isdir r with
         | .err e => .err e
